@@ -263,3 +263,5 @@ func uniq(s []string) []string {
 	}
 	return out
 }
+
+type packagesPackage = packages.Package
